@@ -1,0 +1,41 @@
+//go:build verif
+// +build verif
+
+package leanhelix
+
+import (
+	"github.com/orbs-network/lean-helix-go/services/interfaces"
+)
+
+// Synchronous, single-threaded entry points into the worker loop for the
+// verification harness (build tag "verif"). Each one runs the body of the
+// corresponding select arm of WorkerLoop.Run on the caller's goroutine.
+
+// VerifDeliver runs the body of Run's `case msg := <-lh.MessagesChannel`.
+func (lh *WorkerLoop) VerifDeliver(msg *interfaces.ConsensusRawMessage) {
+	parsedMessage := interfaces.ToConsensusMessage(msg)
+	lh.logger.Debug("LHFLOW LHMSG WORKERLOOP RECEIVED %v from %v for H=%d V=%d", parsedMessage.MessageType(), parsedMessage.SenderMemberId(), parsedMessage.BlockHeight(), parsedMessage.View())
+	lh.filter.HandleConsensusRawMessage(msg)
+}
+
+// VerifUpdateState runs the body of Run's `case receivedBlockWithProof := <-lh.workerUpdateStateChannel`.
+func (lh *WorkerLoop) VerifUpdateState(block interfaces.Block, prevBlockProofBytes []byte) {
+	lh.handleUpdateState(&blockWithProof{block: block, prevBlockProofBytes: prevBlockProofBytes})
+}
+
+// VerifElection runs the body of Run's `case trigger := <-lh.electionChannel`.
+func (lh *WorkerLoop) VerifElection(trigger *interfaces.ElectionTrigger) {
+	if trigger == nil {
+		return
+	}
+	current := lh.state.HeightView()
+	if current.Height() != trigger.Hv.Height() || current.View() != trigger.Hv.View() { // stale election message
+		return
+	}
+	trigger.MoveToNextLeader()
+}
+
+// VerifDispose runs what Run does on shutdown.
+func (lh *WorkerLoop) VerifDispose() {
+	lh.cleanupCurrentTerm()
+}
